@@ -38,6 +38,9 @@ pub(crate) struct Parser {
     input_order: Vec<Name>,
     /// Used to avoid parsing the same schema twice
     parsed_schemas: Names,
+    /// Full names defined by the documents parsed so far (a full name may be defined only once;
+    /// names that were merely supplied as already known schemata are not in this set)
+    defined_names: HashSet<Name>,
 }
 
 impl Parser {
@@ -51,6 +54,7 @@ impl Parser {
             resolving_schemas: HashMap::default(),
             input_order,
             parsed_schemas,
+            defined_names: HashSet::default(),
         }
     }
 
@@ -474,6 +478,15 @@ impl Parser {
         }
     }
 
+    /// A full name may be defined only once.
+    fn check_not_yet_defined(&mut self, name: &Name) -> AvroResult<()> {
+        if self.defined_names.insert(name.clone()) {
+            Ok(())
+        } else {
+            Err(Details::NameCollision(name.fullname(None)).into())
+        }
+    }
+
     fn register_resolving_schema(&mut self, name: &Name, aliases: &Aliases) {
         let resolving_schema = Schema::Ref { name: name.clone() };
         self.resolving_schemas
@@ -551,6 +564,7 @@ impl Parser {
         }
 
         let fully_qualified_name = Name::parse(complex, enclosing_namespace)?;
+        self.check_not_yet_defined(&fully_qualified_name)?;
         let aliases =
             self.fix_aliases_namespace(complex.aliases(), fully_qualified_name.namespace())?;
 
@@ -630,6 +644,7 @@ impl Parser {
         }
 
         let fully_qualified_name = Name::parse(complex, enclosing_namespace)?;
+        self.check_not_yet_defined(&fully_qualified_name)?;
         let aliases =
             self.fix_aliases_namespace(complex.aliases(), fully_qualified_name.namespace())?;
 
@@ -779,6 +794,7 @@ impl Parser {
         }?;
 
         let fully_qualified_name = Name::parse(complex, enclosing_namespace)?;
+        self.check_not_yet_defined(&fully_qualified_name)?;
         let aliases =
             self.fix_aliases_namespace(complex.aliases(), fully_qualified_name.namespace())?;
 
